@@ -418,6 +418,80 @@ theorem proj_map (i : Nat) : ∀ tr : Trace, proj i (mapTrace tr) = (proj i tr).
     simp only [mapTrace] at ih
     by_cases h : j = i <;> simp [mapTrace, proj, h, ih]
 
+/-! ## frames: what a thread never looks at does not matter -/
+
+/-- the cell an action touches -/
+def actCell : Act → Cell
+  | .read c | .write c _ | .cacheFill c _ | .lazyInit c _ | .syncStore c _ | .syncRead c | .cacheUse c _ | .fillUse c _ => c
+
+/-- states that agree on the cells of a frame -/
+def AgreeOn (F : List Cell) (σ τ : State) : Prop := ∀ c ∈ F, σ c = τ c
+
+theorem step_agreeOn (F : List Cell) (σ τ : State) (a : Act) (h : AgreeOn F σ τ) :
+    AgreeOn F (stepState σ a) (stepState τ a) := by
+  intro c hc
+  have hcc := h c hc
+  cases a <;> simp only [stepState] <;> first
+    | exact hcc
+    | (rename_i c' v; by_cases hx : c = c'
+       · subst hx; simp [hcc]
+       · simp [hx, hcc])
+
+theorem obs_agreeOn (F : List Cell) (σ τ : State) (a : Act) (h : AgreeOn F σ τ) (ha : actCell a ∈ F) :
+    stepObs σ a = stepObs τ a := by
+  cases a <;> simp only [stepObs, actCell] at * <;> simp [h _ ha]
+
+theorem step_outside (F : List Cell) (σ τ : State) (a : Act) (h : AgreeOn F σ τ) (ha : actCell a ∉ F) :
+    AgreeOn F (stepState σ a) τ := by
+  intro c hc
+  have hne : c ≠ actCell a := fun e => ha (e ▸ hc)
+  have hcc := h c hc
+  cases a <;> simp only [stepState, actCell] at * <;> simp [hne, hcc]
+
+/-- what thread `i` may rely on: its own actions stay inside the frame `F`; every OTHER thread's action is either
+    kept (`keep`) or touches no cell of the frame — whatever it is, a plain racy write included -/
+def junk (F : List Cell) (i : Nat) (x : Nat × Act) : Bool := x.1 != i && !F.contains (actCell x.2)
+
+theorem readsOf_drop_junk (F : List Cell) (i : Nat) : ∀ (tr : Trace) (σ τ : State), AgreeOn F σ τ →
+    (∀ x ∈ tr, x.1 = i → actCell x.2 ∈ F) →
+    readsOf i σ tr = readsOf i τ (tr.filter (fun x => !junk F i x))
+  | [], _, _, _, _ => rfl
+  | (j, a) :: tr, σ, τ, hag, hmine => by
+    have hrest : ∀ x ∈ tr, x.1 = i → actCell x.2 ∈ F := fun x hx => hmine x (by simp [hx])
+    by_cases hj : junk F i (j, a) = true
+    · -- dropped: another thread's action outside the frame
+      have hne : ¬ j = i := by
+        simp only [junk, Bool.and_eq_true, bne_iff_ne, ne_eq] at hj; exact hj.1
+      have hout : actCell a ∉ F := by
+        simp only [junk, Bool.and_eq_true] at hj
+        have h2 := hj.2
+        simpa using h2
+      have hj' : junk F i (j, a) = true := by simp [junk, hne, hout]
+      simp only [List.filter_cons, hj', Bool.not_true, readsOf, hne, if_false]
+      exact readsOf_drop_junk F i tr (stepState σ a) τ (step_outside F σ τ a hag hout) hrest
+    · have hj' : junk F i (j, a) = false := by simpa using hj
+      simp only [List.filter_cons, hj', Bool.not_false, if_true, readsOf]
+      have hag' := step_agreeOn F σ τ a hag
+      by_cases hji : j = i
+      · have hin : actCell a ∈ F := hmine (j, a) (by simp) hji
+        simp only [hji, if_true]
+        rw [obs_agreeOn F σ τ a hag hin, readsOf_drop_junk F i tr _ _ hag' hrest]
+      · simp only [hji, if_false]
+        exact readsOf_drop_junk F i tr _ _ hag' hrest
+
+theorem proj_drop_junk (F : List Cell) (i : Nat) : ∀ tr : Trace, proj i (tr.filter (fun x => !junk F i x)) = proj i tr
+  | [] => rfl
+  | (j, a) :: tr => by
+    have ih := proj_drop_junk F i tr
+    by_cases hj : junk F i (j, a) = true
+    · have hne : ¬ j = i := by
+        simp only [junk, Bool.and_eq_true, bne_iff_ne, ne_eq] at hj; exact hj.1
+      simp [hj, proj, hne, ih]
+    · have hj' : junk F i (j, a) = false := by simpa using hj
+      by_cases hji : j = i
+      · subst hji; simp [hj', proj, ih]
+      · simp [hj', proj, hji, ih]
+
 /-! ## reading the generated table -/
 
 inductive RowClass | cache | cacheLoad | inertCas | lazyDecl | lazyCtor | outParam | plain | unread | appendSpare | appendClipped
